@@ -17,17 +17,17 @@ Definition run_dig (ds : list nat) (args : list (list Z)) : option (list Z) :=
 
 Definition run_c15 (k : Z) (args : list (list Z)) : list (list Z) :=
   if k =? 1500 then [[0]]
-  else if k =? 1501 then [fix1d (arg 0 args)]
+  else if k =? 1501 then [fix1d (cost_of (argz 1 args)) (arg 0 args)]   (* arg 1: modulus of an unsigned element type, 0 = exact *)
   else
   let ds := net_in (arg 0 args) in
   let sq := ns (arg 1 args) in
-  if k =? 1502 then [adjust fix1d ds sq (arg 2 args)]
+  if k =? 1502 then [adjust (fix1d (cost_of (argz 3 args))) ds sq (arg 2 args)]
   else if k =? 1503 then
     match run_dig ds args with Some e => [[1]; e] | None => [[0]] end
   else if k =? 1504 then
     (* the object's own order: it must be a complete topological order and the model run on it must
        give the implementation's result (arg 3) *)
-    [[zb (check_topo ds sq); zb (check_complete ds sq); zb (zlist_eqb (adjust fix1d ds sq (arg 2 args)) (arg 3 args))]]
+    [[zb (check_topo ds sq); zb (check_complete ds sq); zb (zlist_eqb (adjust (fix1d (cost_of (argz 4 args))) ds sq (arg 2 args)) (arg 3 args))]]
   else if k =? 1507 then
     [[zb (check_topo ds sq); zb (check_complete ds sq);
       zb (match run_dig ds args with Some e => zlist_eqb e (arg 9 args) | None => false end)]]
